@@ -28,7 +28,7 @@ def noop (s : St) : List Act := [.observe s.fsm]
 def matching (i : Info) (s : St) (e : Ev) : List Act :=
   let gens := List.range s.gens.length
   match e with
-  | .run | .wc _ _ | .rl _ | .inject _ _ | .yieldPt => noop s
+  | .run | .wc _ _ | .rl _ | .inject _ _ | .yieldPt | .cbWait _ => noop s
   | .cb _ r =>
     let res : CbRes := match r with
       | some (some v) => (i.cfgs[v]?).getD .nil
